@@ -4,6 +4,9 @@ package main
 func (rn *Runner) shrinkQuery(q *QCase, impl, model string) (*QCase, string, string) {
 	cur, ci, cm := q, impl, model
 	budget := 400
+	if len(q.Doc.Events) > 1000 {
+		budget = 0 // the large documents are fixed ones with minimal queries; an attempt costs the model seconds
+	}
 	try := func(c *QCase) bool {
 		if budget <= 0 {
 			return false
